@@ -69,6 +69,8 @@ class Executor:
         '''
         Largely passing through relevant assignments to the pool they belong to.
         '''
+        for cmd in list(suspensions) + list(assignments):
+            assert 0 <= cmd.pool_id < self.num_pools, f"no such pool: {cmd.pool_id}"
         results: List[ExecutionResult] = []
         for id_ in range(self.num_pools):
             pool_suspensions = [s for s in suspensions if s.pool_id == id_]
